@@ -155,6 +155,10 @@ def run_case(case):
         res.classes = ["first_cause_pair", "f1_skipped"]
         res.info = {"f1_alone": a, "with_f2": b}
         return res
+    if case.get("expect_main") and a.get("main") != case["expect_main"]:
+        # the first cause is known here: the only failure of run one is the one f1 produces itself
+        res.violations.append(Violation(ID, f"c09:first-cause-masked:{f1['do']}:main:{case['expect_main']}->{a.get('main')}",
+                                        f"stage={case.get('stage')}: {f1} alone must end the connect call with {case['expect_main']}, it ended with {a.get('main')}"))
     for k in a:
         if k in b and a[k] != b[k]:
             stage = case.get("stage", "?")
@@ -254,12 +258,15 @@ def _disconnect_during_hung_connect_cases():
     """disconnect() while the connect is hung (device silent): after its 5 s wait the disconnect records the first
     fatal cause itself (a timeout) and goes on to the DisconnectRequest exchange (<= 10 s); whatever fails in
     that window comes second."""
-    for noise in (False, True):
+    for noise in (False, True, "mute"):
         for login in (True, False):
-            b = {"noise": noise, "login": login, "flow": "connect", "auto": False, "K": 8.0, "final_at": 200.0}
+            b = {"noise": bool(noise), "login": login, "flow": "connect", "auto": False, "K": 8.0, "final_at": 200.0}
+            if noise == "mute":
+                b["noise_mute"] = True  # not even the Noise handshake is answered
             for d in (5.25, 7, 12, 14.9):
                 for x in ({"do": "eof"}, {"do": "reset"}, {"do": "chunk", "frames": ["garbage"]}, {"do": "writefail_raise"}, {"do": "force"}):
-                    yield {"kind": "first_cause", "stage": "disconnect-during-hung-connect", "base": b, "f1": {"do": "disconnect", "at": 300}, "f2": [{**x, "at": 300 + int(256 * d)}]}
+                    yield {"kind": "first_cause", "stage": "disconnect-during-hung-connect", "base": b, "f1": {"do": "disconnect", "at": 300}, "f2": [{**x, "at": 300 + int(256 * d)}],
+                           "expect_main": "TimeoutAPIError"}
 
 
 @st.composite
